@@ -128,6 +128,25 @@ pub fn type_args(p: &Program, t: &cairo_lang_sierra::ids::ConcreteTypeId, small:
     };
     match g {
         "felt252" | "u8" | "u16" | "u32" | "u64" | "u128" | "i8" | "i16" | "i32" | "i64" | "i128" => Some(domain(g, small)?.into_iter().map(|v| vec![Arg::Value(v)]).collect()),
+        "BoundedInt" => match (d.long_id.generic_args.first()?, d.long_id.generic_args.get(1)?) {
+            (GenericArg::Value(lo), GenericArg::Value(hi)) if lo <= hi => {
+                let mid: num_bigint::BigInt = (lo + hi) / 2;
+                let mut v: Vec<num_bigint::BigInt> = vec![lo.clone(), lo + 1, mid, hi - 1, hi.clone(), num_bigint::BigInt::from(0), num_bigint::BigInt::from(1), num_bigint::BigInt::from(-1)];
+                v.retain(|x| x >= lo && x <= hi);
+                v.sort();
+                v.dedup();
+                if small && v.len() > 4 {
+                    let n = v.len();
+                    v = vec![v[0].clone(), v[1].clone(), v[n / 2].clone(), v[n - 1].clone()];
+                }
+                Some(v.into_iter().map(|x| vec![Arg::Value(Felt::from(&x))]).collect())
+            }
+            _ => None,
+        },
+        "bytes31" => Some([Felt::ZERO, Felt::ONE, Felt::TWO.pow(128u32), Felt::TWO.pow(248u32) - Felt::ONE].into_iter().map(|v| vec![Arg::Value(v)]).collect()),
+        "ContractAddress" | "ClassHash" | "StorageAddress" | "StorageBaseAddress" => {
+            Some([Felt::ZERO, Felt::ONE, Felt::from(0x1234u64), Felt::TWO.pow(251u32) - Felt::from(257u64)].into_iter().map(|v| vec![Arg::Value(v)]).collect())
+        }
         "Snapshot" => type_args(p, inner(0)?, small, depth + 1),
         "NonZero" => {
             let v = type_args(p, inner(0)?, small, depth + 1)?;
